@@ -78,6 +78,7 @@ type Thread struct {
 	obs     uint64 // running hash of everything the thread observed
 	Panic   any
 	PanicAt string
+	realGID uint64
 }
 
 // Options of one scheduler instance.
@@ -90,6 +91,13 @@ type Options struct {
 	// pruning. It must describe the shared state; per-thread positions and observation
 	// hashes are added by the scheduler.
 	StateKey func() string
+	// PositionsByObservation leaves the per-thread step counters out of the state key: a
+	// thread's position is then identified by its pending operation and its observation hash
+	// alone. Needed for polling loops (a waiter that retries returns to the same local state and
+	// must be recognised as such, or the state space is infinite); only sound when every
+	// operation between two scheduling points with the same label folds what it returned into
+	// the observation hash, which the harness asserts for its hooks.
+	PositionsByObservation bool
 }
 
 // Outcome of one execution.
@@ -169,6 +177,7 @@ func (s *Sched) Go(name string, f func()) *Thread {
 	s.ready.Add(1)
 	go func() {
 		g := tagCurrent(t.ID)
+		t.realGID = realGID()
 		s.gids.Store(g, t)
 		defer func() {
 			s.gids.Delete(g)
@@ -382,7 +391,9 @@ func (s *Sched) stateKey(run *Thread) string {
 	s.inPick = false
 	for _, t := range s.threads {
 		b = append(b, '|')
-		b = strconv.AppendInt(b, int64(t.steps), 10)
+		if !s.opts.PositionsByObservation {
+			b = strconv.AppendInt(b, int64(t.steps), 10)
+		}
 		b = append(b, ':')
 		b = append(b, t.label...)
 		b = append(b, ':')
@@ -401,8 +412,14 @@ func (s *Sched) stateKey(run *Thread) string {
 		b = append(b, '#')
 		b = strconv.AppendInt(b, int64(run.ID), 10)
 	}
+	if DebugKeys != nil {
+		DebugKeys(string(b))
+	}
 	return string(b)
 }
+
+// DebugKeys, if set, receives every state key (harness debugging).
+var DebugKeys func(string)
 
 func (s *Sched) checkRaces(en []*Thread) {
 	n := 0
